@@ -71,6 +71,16 @@ def setRequiresGrad (st : TState α) (i : Nat) (v : Bool) : Option (TState α) :
     else some { st with g := st.g.zipIdx.map (fun (m, k) => if k = i then { m with reqGrad := v } else m) }
   | _, _ => none
 
+/-- every ROUTE that switches the flag of several tensors at once (`Module.freeze()` / `unfreeze()` on any ancestor: `for p in
+    self.parameters(): p.requires_grad = v`) is the setter applied to the listed tensors one after the other: the first tensor the
+    setter refuses ends the call (`false`), the tensors before it keep their new flag -/
+def setRequiresGradAll (st : TState α) : List Nat → Bool → TState α × Bool
+  | [], _ => (st, true)
+  | i :: is, v =>
+    match setRequiresGrad st i v with
+    | some st' => setRequiresGradAll st' is v
+    | none => (st, false)
+
 /-- `retain_grad()` -/
 def retainGrad (st : TState α) (i : Nat) : Option (TState α) :=
   match st.g[i]? with
